@@ -49,6 +49,10 @@ Lemma bykey_nonobj : forall cf ks sv dv root dry sk, is_obj sv = false ->
   bykey cf ks sv dv root dry sk = (dv, sk, None).
 Proof. intros. destruct sv; try reflexivity. discriminate. Qed.
 
+Lemma bykey_nonobj_dst_src : forall cf ks sv dv root dry sk, is_obj sv = false ->
+  fst (fst (bykey cf ks sv dv root dry sk)) = dv.
+Proof. intros. rewrite bykey_nonobj by assumption. reflexivity. Qed.
+
 (* the destination value returned for a non-mapping destination is the value itself *)
 Lemma bykey_nonobj_dst : forall cf ks sv dv root dry sk, is_obj dv = false ->
   fst (fst (bykey cf ks sv dv root dry sk)) = dv.
@@ -258,19 +262,23 @@ Proof.
 Qed.
 
 (* ------------------------------------------------------------------ dry run and ByKey *)
-(* with the nested destination wrapped in a proxy (fix_F16), a dry run leaves the document as it is *)
-Lemma bk_loop_dry_id : forall cf ks root rec, fix_F16 cf = true ->
-  forall items,
+(* with the nested destination wrapped in a proxy (fix_F16), or when the source document has no nested
+   mapping, a dry run leaves the document as it is *)
+Lemma bk_loop_dry_id : forall cf ks root rec items,
+  fix_F16 cf = true \/ forallb (fun kx => negb (is_obj (snd kx))) items = true ->
   (forall k x, In (k, x) items -> forall y r sk, fst (fst (rec x y r true sk)) = y) ->
   forall d sk, fst (fst (bk_loop cf ks root true rec items d sk)) = d.
 Proof.
-  intros cf ks root rec H16. induction items as [|[k x] rest IH]; intros Hrec d sk; simpl; [reflexivity|].
+  intros cf ks root rec. induction items as [|[k x] rest IH]; intros H16 Hrec d sk; simpl; [reflexivity|].
   assert (Hrec' : forall k0 x0, In (k0, x0) rest -> forall y r sk0, fst (fst (rec x0 y r true sk0)) = y)
     by (intros k0 x0 Hin0; apply (Hrec k0 x0); right; assumption).
+  assert (H16' : fix_F16 cf = true \/ forallb (fun kx => negb (is_obj (snd kx))) rest = true).
+  { destruct H16 as [H|H]; [left; assumption|right]. simpl in H. apply andb_true_iff in H. tauto. }
   destruct (alookup k d) as [y|] eqn:Ey; [|apply IH; assumption].
   destruct (py_eq y x); [apply IH; assumption|].
   destruct x as [| | | | | |xs];
     try (destruct (selected ks (root ++ k)); apply IH; assumption).
+  destruct H16 as [H16|H16]; [|simpl in H16; discriminate].
   unfold nested_dry. rewrite H16.
   pose proof (Hrec k (JObj xs) (or_introl eq_refl) y (child_root cf root k) sk) as R.
   destruct (rec (JObj xs) y (child_root cf root k) true sk) as [[y' sk'] e]. cbn [fst] in R. subst y'.
@@ -284,11 +292,26 @@ Proof.
   intros cf ks H16. induction sv using json_ind'; intros dv root sk; try reflexivity.
   rewrite bykey_obj. destruct (py_eq (JObj kvs) dv); [reflexivity|].
   destruct dv as [| | | | | |dkvs]; try (destruct kvs; reflexivity).
-  pose proof (bk_loop_dry_id cf ks root (bykey cf ks) H16 kvs) as L.
+  pose proof (bk_loop_dry_id cf ks root (bykey cf ks) kvs (or_introl H16)) as L.
   destruct (bk_loop cf ks root true (bykey cf ks) kvs dkvs sk) as [[d' sk'] e] eqn:El.
   cbn [fst]. f_equal.
   assert (Hrec : forall k x, In (k, x) kvs -> forall y r sk0, fst (fst (bykey cf ks x y r true sk0)) = y).
   { intros k x Hin y r sk0. rewrite Forall_forall in H. apply (H (k, x) Hin). }
+  specialize (L Hrec dkvs sk). rewrite El in L. exact L.
+Qed.
+
+Theorem bykey_dry_id_flat : forall cf ks sv, flat_obj sv = true ->
+  forall dv root sk, fst (fst (bykey cf ks sv dv root true sk)) = dv.
+Proof.
+  intros cf ks sv Hflat dv root sk. destruct sv as [| | | | | |kvs]; try reflexivity.
+  rewrite bykey_obj. destruct (py_eq (JObj kvs) dv); [reflexivity|].
+  destruct dv as [| | | | | |dkvs]; try (destruct kvs; reflexivity).
+  pose proof (bk_loop_dry_id cf ks root (bykey cf ks) kvs (or_intror Hflat)) as L.
+  destruct (bk_loop cf ks root true (bykey cf ks) kvs dkvs sk) as [[d' sk'] e] eqn:El.
+  cbn [fst]. f_equal.
+  assert (Hrec : forall k x, In (k, x) kvs -> forall y r sk0, fst (fst (bykey cf ks x y r true sk0)) = y).
+  { intros k x Hin y r sk0. simpl in Hflat. rewrite forallb_forall in Hflat. specialize (Hflat (k, x) Hin).
+    simpl in Hflat. apply bykey_nonobj_dst_src. destruct (is_obj x); [discriminate|reflexivity]. }
   specialize (L Hrec dkvs sk). rewrite El in L. exact L.
 Qed.
 
@@ -368,11 +391,13 @@ Section SyncDoc.
   Lemma ds_update_dry : forall sdoc ddoc, ds_update sdoc ddoc true = ddoc.
   Proof. unfold ds_update. induction sdoc as [|kv sdoc IH]; intros; simpl; auto. Qed.
 
-  Lemma apply_docsync_dry_id : fix_F16 cf = true -> forall ds sdoc ddoc, fst (apply_docsync cf ds sdoc ddoc true) = ddoc.
+  Lemma apply_docsync_dry_id : forall ds sdoc ddoc, fix_F16 cf = true \/ flat_obj (JObj sdoc) = true ->
+    fst (apply_docsync cf ds sdoc ddoc true) = ddoc.
   Proof.
-    intros H16 ds sdoc ddoc. destruct ds as [ks| | |]; try reflexivity.
+    intros ds sdoc ddoc H16. destruct ds as [ks| | |]; try reflexivity.
     - unfold apply_docsync, bykey_top.
-      pose proof (bykey_dry_id cf ks H16 (JObj sdoc) (JObj ddoc) [] []) as B.
+      assert (B : fst (fst (bykey cf ks (JObj sdoc) (JObj ddoc) [] true [])) = JObj ddoc)
+        by (destruct H16 as [H16|H16]; [apply bykey_dry_id|apply bykey_dry_id_flat]; assumption).
       destruct (bykey cf ks (JObj sdoc) (JObj ddoc) [] true []) as [[d sk] e]. simpl in B. subst d.
       destruct e; [reflexivity|]. destruct sk; destruct ks; reflexivity.
     - simpl. apply ds_update_dry.
@@ -382,15 +407,16 @@ Section SyncDoc.
   Proof. intro. unfold kvs_eqb. apply json_eqb_eq. reflexivity. Qed.
 
   (* C15: with the nested proxy repaired, a dry run leaves the document file alone *)
-  Theorem sync_doc_dry_id : fix_F16 cf = true -> forall o fn sdir ddir,
+  Theorem sync_doc_dry_id : forall o fn sdir ddir,
+    fix_F16 cf = true \/ flat_obj (JObj (read_doc fn sdir)) = true ->
     o_dry_run o = true -> NoDup (map fst (read_doc fn sdir)) ->
     fst (sync_doc cf o fn sdir ddir) = ddir.
   Proof.
-    intros H16 o fn sdir ddir Hdry Hnd. unfold sync_doc. rewrite Hdry.
+    intros o fn sdir ddir H16 Hdry Hnd. unfold sync_doc. rewrite Hdry.
     destruct (o_docsync o) as [ks| | |] eqn:Eds; try reflexivity;
       (destruct (py_eq (JObj (read_doc fn sdir)) (JObj (read_doc fn ddir))); [reflexivity|]);
       match goal with |- context [apply_docsync cf ?ds ?a ?b true] =>
-        pose proof (apply_docsync_dry_id H16 ds a b) as Hid;
+        pose proof (apply_docsync_dry_id ds a b H16) as Hid;
         pose proof (apply_docsync_empty_ok cf ds a true Hnd) as Hemp;
         destruct (apply_docsync cf ds a b true) as [d0 e0] eqn:Ea
       end; simpl in Hid; subst d0; rewrite kvs_eqb_refl;
@@ -452,4 +478,122 @@ Proof.
   destruct Hin as [Heq|Hin].
   - inversion Heq; subst. rewrite fold_pset_frame by assumption. unfold pset. apply alookup_aset_same.
   - apply IH; assumption.
+Qed.
+
+(* ------------------------------------------------------------------ keys only in the destination (C13) *)
+Section KeysKept.
+  Variable cf : cfg.
+  Variable ks : option (str -> bool).
+  Variable root : str.
+  Variable dry : bool.
+  Variable rec : json -> json -> str -> bool -> list str -> json * list str * option exn.
+
+  (* what the loop can have done to the entry of one source key *)
+  Definition item_out (k : str) (x : json) (oy oy' : option json) : Prop :=
+    oy' = oy
+    \/ (is_obj x = false /\ oy' = Some x)
+    \/ (oy = None /\ oy' = Some x)
+    \/ (exists y r dr sk0, oy = Some y /\ is_obj x = true /\ oy' = Some (fst (fst (rec x y r dr sk0)))).
+
+  Lemma bk_loop_spec : forall items, NoDup (map fst items) ->
+    forall d0 d sk,
+    (forall k, In k (map fst items) -> alookup k d = alookup k d0) ->
+    let d' := fst (fst (bk_loop cf ks root dry rec items d sk)) in
+    (forall k x, In (k, x) items -> item_out k x (alookup k d0) (alookup k d'))
+    /\ (forall k, ~ In k (map fst items) -> alookup k d' = alookup k d).
+  Proof.
+    induction items as [|[k x] rest IH]; intros Hnd d0 d sk Hd; simpl.
+    - split; [intros ? ? []|reflexivity].
+    - inversion Hnd as [|? ? Hk Hnd']; subst.
+      assert (Gen : forall d1 sk1,
+                 (forall k', k' <> k -> alookup k' d1 = alookup k' d) ->
+                 item_out k x (alookup k d0) (alookup k d1) ->
+                 let d' := fst (fst (bk_loop cf ks root dry rec rest d1 sk1)) in
+                 (forall k0 x0, (k, x) = (k0, x0) \/ In (k0, x0) rest -> item_out k0 x0 (alookup k0 d0) (alookup k0 d'))
+                 /\ (forall k0, ~ (k = k0 \/ In k0 (map fst rest)) -> alookup k0 d' = alookup k0 d)).
+      { intros d1 sk1 Hfr Hok.
+        assert (Hd1 : forall k0, In k0 (map fst rest) -> alookup k0 d1 = alookup k0 d0).
+        { intros k0 Hin. rewrite Hfr; [apply Hd; right; assumption|]. intro; subst. contradiction. }
+        destruct (IH Hnd' d0 d1 sk1 Hd1) as [I1 I2]. split.
+        - intros k0 x0 [Heq|Hin]; [|apply I1; assumption].
+          inversion Heq; subst. rewrite I2 by assumption. assumption.
+        - intros k0 Hn. rewrite I2 by tauto. apply Hfr. intro; subst. tauto. }
+      assert (Hkd : alookup k d = alookup k d0) by (apply Hd; left; reflexivity).
+      destruct (alookup k d) as [y|] eqn:Ey.
+      + destruct (py_eq y x) eqn:Epy.
+        * apply Gen; [reflexivity|]. left. congruence.
+        * destruct x as [| | | | | |xs];
+            try (destruct (selected ks (root ++ k)) eqn:Es;
+                 [ apply Gen; [intros; apply pset_frame; assumption|];
+                   unfold pset; destruct dry; [left; congruence|right; left; rewrite alookup_aset_same; auto]
+                 | apply Gen; [reflexivity|]; left; congruence ]).
+          destruct (rec (JObj xs) y (child_root cf root k) (nested_dry cf dry) sk) as [[y' sk'] e] eqn:Er.
+          assert (Hok : item_out k (JObj xs) (alookup k d0) (alookup k (aset k y' d))).
+          { right. right. right. exists y, (child_root cf root k), (nested_dry cf dry), sk.
+            rewrite Er, alookup_aset_same. auto. }
+          assert (Hfr : forall k', k' <> k -> alookup k' (aset k y' d) = alookup k' d)
+            by (intros; apply alookup_aset_other; congruence).
+          destruct e as [ex|].
+          -- simpl. split.
+             ++ intros k0 x0 [Heq|Hin]; [inversion Heq; subst; exact Hok|].
+                assert (Hne : k0 <> k) by (intro; subst; apply Hk; apply (in_map fst) in Hin; exact Hin).
+                left. rewrite Hfr by assumption. apply Hd. right. apply (in_map fst) in Hin. exact Hin.
+             ++ intros k0 Hn. apply Hfr. intro; subst. tauto.
+          -- apply Gen; assumption.
+      + apply Gen; [intros; apply pset_frame; assumption|].
+        unfold pset. destruct dry; [left; congruence|]. right. right. left. rewrite alookup_aset_same. auto.
+  Qed.
+End KeysKept.
+
+Lemma keys_kept_obj : forall s d dv',
+  keys_kept (JObj s) (JObj d) dv' =
+  forallb (fun kx => match alookup (fst kx) s with
+                     | None => match jget (fst kx) dv' with Some x' => json_eqb (snd kx) x' | None => false end
+                     | Some sx => keys_kept sx (snd kx) (match jget (fst kx) dv' with Some x' => x' | None => JNull end)
+                     end) d.
+Proof.
+  intros. simpl. induction d as [|[k x] d IH]; [reflexivity|]. simpl. rewrite <- IH. reflexivity.
+Qed.
+
+Lemma keys_kept_nonobj_src : forall sv dv dv', is_obj sv = false -> keys_kept sv dv dv' = true.
+Proof. intros. destruct dv; try reflexivity. destruct sv; try reflexivity. discriminate. Qed.
+
+Lemma keys_kept_refl : forall dv, wf dv = true -> forall sv, keys_kept sv dv dv = true.
+Proof.
+  induction dv using json_ind'; intros Hwf sv; try reflexivity.
+  destruct sv as [| | | | | |s]; try reflexivity.
+  destruct (wf_obj_inv _ Hwf) as [Hnd Hwfs].
+  rewrite keys_kept_obj. apply forallb_forall. intros [k x] Hin. cbn [fst snd].
+  simpl. rewrite (NoDup_alookup _ k x kvs Hnd Hin).
+  destruct (alookup k s) as [sx|]; [|apply json_eqb_eq; reflexivity].
+  rewrite Forall_forall in H, Hwfs. apply (H (k, x) Hin). apply (Hwfs (k, x) Hin).
+Qed.
+
+(* C13: ByKey leaves every key that exists only in the destination (at any depth) alone *)
+Theorem bykey_keys_kept : forall cf ks sv, wf sv = true -> forall dv root dry sk, wf dv = true ->
+  keys_kept sv dv (fst (fst (bykey cf ks sv dv root dry sk))) = true.
+Proof.
+  intros cf ks. induction sv using json_ind'; intros Hwf dv root dry sk Hwd;
+    try (apply keys_kept_nonobj_src; reflexivity).
+  rename H into IH.
+  destruct (wf_obj_inv _ Hwf) as [Hnd Hwfs].
+  rewrite bykey_obj. destruct (py_eq (JObj kvs) dv) eqn:Epy; [apply keys_kept_refl; assumption|].
+  destruct dv as [| | | | | |dkvs]; try reflexivity.
+  destruct (wf_obj_inv _ Hwd) as [Hndd Hwfd].
+  pose proof (bk_loop_spec cf ks root dry (bykey cf ks) kvs Hnd dkvs dkvs sk (fun _ _ => eq_refl)) as L.
+  destruct (bk_loop cf ks root dry (bykey cf ks) kvs dkvs sk) as [[d' sk'] e] eqn:El.
+  cbn [fst] in *. destruct L as [L1 L2].
+  rewrite keys_kept_obj. apply forallb_forall. intros [k y] Hin. cbn [fst snd]. simpl jget.
+  pose proof (NoDup_alookup _ k y dkvs Hndd Hin) as Ey.
+  destruct (alookup k kvs) as [sx|] eqn:Es.
+  - pose proof (alookup_In _ _ _ _ Es) as Hins.
+    rewrite Forall_forall in IH, Hwfs, Hwfd.
+    destruct (L1 k sx Hins) as [H|[[Ho H]|[[Hn _]|(y0 & r & dr & sk0 & Hy & Ho & H)]]].
+    + rewrite H, Ey. apply keys_kept_refl. apply (Hwfd (k, y) Hin).
+    + apply keys_kept_nonobj_src. assumption.
+    + congruence.
+    + rewrite H. rewrite Ey in Hy. inversion Hy; subst y0.
+      apply (IH (k, sx) Hins); [apply (Hwfs (k, sx) Hins)|apply (Hwfd (k, y) Hin)].
+  - rewrite L2, Ey; [apply json_eqb_eq; reflexivity|].
+    apply alookup_None_notin. assumption.
 Qed.
